@@ -262,6 +262,10 @@ def rule_fsm_payee(ctx: RuleContext, p: Program, rid: str) -> None:
                 if attr in props:
                     ev = MiniEval(f'Transaction.{attr} getter', self.get_attr, self.set_attr, self.call, self.isinstance_)
                     return ev.run(stmts_no_doc(props[attr].fget.node.body), {'self': ('SELF',)})
+                if 'raw_' + attr in props:
+                    # the value-level view of the same slot (present / absent is all this domain distinguishes; an empty string is
+                    # VALUE-TRUTH's business)
+                    return self.get_attr(obj, 'raw_' + attr)
             raise AnalysisError(f'FSM-PAYEE: attribute {attr} is not modelled')
 
         def set_attr(self, obj: Any, attr: str, v: Any) -> None:
@@ -401,6 +405,8 @@ def run(ctx: RuleContext, p: Program) -> None:
     ctx.try_rule(rule_slot_agree, p, 'SLOT-AGREE')
     from . import presence
     ctx.try_rule(presence.rule_presence_truth, p, 'PRESENCE-TRUTH')
+    from . import round4
+    ctx.try_rule(round4.rule_set_covers, p, 'SET-COVERS')
     ctx.not_decided += ['survival of values through print and re-parse', 'value domains of each token type (C12)',
                         'other dependent groups (none documented)']
     ctx.assumptions += ['primitive models of FSM-COST: unordered_node_property get/set means present/absent component of that type; '
